@@ -197,8 +197,21 @@ impl BinOut {
 
 /// Run the p2sh binary with the given argv and stdin; hard wall-clock limit.
 pub fn run_bin(args: &[&str], stdin: &[u8], envs: &[(&str, &str)], timeout_s: u64) -> BinOut {
+    run_bin_ext(args, stdin, envs, timeout_s, None)
+}
+
+/// As run_bin; `stdout_to` redirects the child's standard output to a path (e.g. /dev/full) instead of capturing it.
+pub fn run_bin_ext(args: &[&str], stdin: &[u8], envs: &[(&str, &str)], timeout_s: u64, stdout_to: Option<&str>) -> BinOut {
     let mut cmd = Command::new(bin_path());
-    cmd.args(args).env("RUST_BACKTRACE", "0").stdin(Stdio::piped()).stdout(Stdio::piped()).stderr(Stdio::piped());
+    cmd.args(args).env("RUST_BACKTRACE", "0").stdin(Stdio::piped()).stderr(Stdio::piped());
+    match stdout_to {
+        Some(p) => {
+            cmd.stdout(std::fs::OpenOptions::new().write(true).open(p).expect("cannot open stdout target"));
+        }
+        None => {
+            cmd.stdout(Stdio::piped());
+        }
+    }
     for (k, v) in envs {
         cmd.env(k, v);
     }
@@ -209,11 +222,13 @@ pub fn run_bin(args: &[&str], stdin: &[u8], envs: &[(&str, &str)], timeout_s: u6
         let _ = si.write_all(&data);
         drop(si);
     });
-    let mut so = child.stdout.take().unwrap();
+    let so = child.stdout.take();
     let mut se = child.stderr.take().unwrap();
     let t_out = std::thread::spawn(move || {
         let mut v = Vec::new();
-        let _ = so.read_to_end(&mut v);
+        if let Some(mut so) = so {
+            let _ = so.read_to_end(&mut v);
+        }
         v
     });
     let t_err = std::thread::spawn(move || {
